@@ -194,10 +194,12 @@ CLAIMED = {
              "specs as index arithmetic mod n (periodic) or clipped, nearby symmetric and reflexive; exact reading: partition (exactly "
              "one cell contains p and position_to_cell returns it), relative/translate are (c-r) mod n and (c+o) mod n and mutually "
              "inverse, nearby is translation invariant; rounding-abstract: extents are the maximal runs of scalars with digit i, "
-             "consecutive cells abut; kernel-evaluated binary64 counterexamples at the top of the box. Correspondence bit-exact against "
+             "consecutive cells abut, the last cell reaches the top of the box, position_to_cell is total on the closed box; kernel-evaluated "
+             "binary64 facts on the former counterexample witnesses (the raw quotient still overflows, the clamp is live; unit box tiled for "
+             "n = 1..12). Correspondence bit-exact against "
              "CuboidCells/CuboidPeriodicCells (all cells with extents, all queries, error outcomes); oracle on the implementation.",
-        note="Known finding F2: int(p/side) = n for the top floats of the box for many cell counts (wrong cell or IndexError) and the last "
-             "cell_max is below nextafter(L,0). Extent hypothesis Geo is not derived from the float constructor in general (bridged by "
+        note="F2 (int(p/side) = n for the top floats of the box: wrong cell or IndexError; last cell_max below nextafter(L,0)) was repaired "
+             "in /repo (fix 24644d9); the old behaviour is a regression the check reports with a failing input. Extent hypothesis Geo is not derived from the float constructor in general (bridged by "
              "part D and the oracle); loop termination (fuel) not proved.",
         technique="Lean 4 proof over a hand-written model + bit-exact differential correspondence + oracle",
         ref="§5 C16"),
